@@ -12,3 +12,6 @@ func ReconPlanes(y, u, v []byte, yStride, uvStride, w, h int) {}
 
 // PoolHit is a no-op without the verif build tag.
 func PoolHit(name string) {}
+
+// NoLoopFilter is always false without the verif build tag.
+func NoLoopFilter() bool { return false }
